@@ -1466,6 +1466,26 @@ class PathResult:
         self.n_lits = 0
 
 
+def _perturbations(ctx, inputs):
+    """the witness moved by a few 1e-9 (relative), every input by its own amount and sign (a uniform factor would cancel in
+    every ratio): uniformly up, uniformly down, and two mixed patterns"""
+    names = [n for n in inputs if n in ctx.vars]
+    out = []
+    for j in range(4):
+        d = {}
+        for i, n in enumerate(names):
+            if ctx.vars[n][1]["integer"]:
+                d[n] = inputs[n]
+                continue
+            if j < 2:
+                f = 1 if j == 0 else -1
+            else:
+                f = (1 if (i + j) % 2 == 0 else -1) * (1 + (i * 7 + j * 3) % 5)
+            d[n] = inputs[n] * (1 + f * Fraction(1, 10 ** 9))
+        out.append(d)
+    return out
+
+
 def explore(harness, params, max_paths=256, max_seconds=600.0, solver_timeout_ms=20000, seed=0, fidelity=True,
             on_path_end=None):
     """Depth-first exploration of all feasible decision sequences of harness(ctx, **params)."""
@@ -1518,9 +1538,7 @@ def explore(harness, params, max_paths=256, max_seconds=600.0, solver_timeout_ms
                     if inputs is not None:
                         # the witness must stay on this path when every input moves by 1e-9 (relative) either way:
                         # otherwise float rounding, not the model, decides which branch the concrete run takes
-                        for sgn in (1, -1):
-                            pert0 = {n: (v if ctx.vars[n][1]["integer"] else v * (1 + sgn * Fraction(1, 10 ** 9)))
-                                     for n, v in inputs.items() if n in ctx.vars}
+                        for pert0 in _perturbations(ctx, inputs):
                             if not ctx.lits_hold_at(pert0):
                                 inputs = None
                                 break
@@ -1537,14 +1555,13 @@ def explore(harness, params, max_paths=256, max_seconds=600.0, solver_timeout_ms
                                 obs[k] = v
                         # conditioning: re-evaluate at inputs perturbed by 1e-9 (relative); results that move by more
                         # than 1e-5 are ill-conditioned at this witness (cancellation) and are not compared
-                        pert = {n: (v if ctx.vars[n][1]["integer"] else v * (1 + Fraction(1, 10 ** 9)))
-                                for n, v in inputs.items() if n in ctx.vars}
-                        for k, v in list(ctx.observed.items()):
-                            if isinstance(v, Sym) and obs.get(k) is not None:
-                                v2 = ctx.eval_at(pert, v)
-                                if v2 is None or abs(v2 - obs[k]) > Fraction(1, 10 ** 5) * max(abs(obs[k]), abs(v2)):
-                                    obs[k] = None
-                                    stats["fidelity_cells_ill_conditioned"] = stats.get("fidelity_cells_ill_conditioned", 0) + 1
+                        for pert in _perturbations(ctx, inputs):
+                            for k, v in list(ctx.observed.items()):
+                                if isinstance(v, Sym) and obs.get(k) is not None:
+                                    v2 = ctx.eval_at(pert, v)
+                                    if v2 is None or abs(v2 - obs[k]) > Fraction(1, 10 ** 5) * max(abs(obs[k]), abs(v2)):
+                                        obs[k] = None
+                                        stats["fidelity_cells_ill_conditioned"] = stats.get("fidelity_cells_ill_conditioned", 0) + 1
                         fobs = {}
                         if ctx.observed_fp:
                             from . import fp as _fp
